@@ -25,6 +25,7 @@ GRIDS = [
     {"gpts": [15, 12], "sampling": [0.25, 0.25]},
     {"gpts": [16, 12], "sampling": [0.2, 0.35]},
     {"gpts": [24, 9], "sampling": [0.15, 0.4]},
+    {"gpts": [48, 144], "sampling": [0.25, 0.25]},  # extent 12 x 36 A: angular pixel 3.1 x 1.0 mrad at 100 keV
 ]
 CUTOFFS = [2.0, 10.0, 20.5, 500.0, "inf", "dist"]
 FOCAL = [0.0, 10.0, 80.0, "dist"]
@@ -79,10 +80,11 @@ def alpha_grid(g, energy):
     ky = np.fft.fftfreq(g["gpts"][1], g["sampling"][1])
     alpha = np.sqrt(kx[:, None] ** 2 + ky[None] ** 2) * lam
     pix = max(lam / (g["gpts"][0] * g["sampling"][0]), lam / (g["gpts"][1] * g["sampling"][1]))
+    alpha_grid.axis_pix = (lam / (g["gpts"][0] * g["sampling"][0]), lam / (g["gpts"][1] * g["sampling"][1]))
     return alpha, pix
 
 
-def aperture_bounds(k, alpha, pix, c_mrad, soft):
+def aperture_bounds(k, alpha, pix, c_mrad, soft, axis_pix=None):
     """returns list of (key, msg)"""
     out = []
     k = np.asarray(k)
@@ -97,6 +99,17 @@ def aperture_bounds(k, alpha, pix, c_mrad, soft):
         inside, outside = alpha <= c - 0.5 * pix * (1 + 1e-5), alpha >= c + 0.5 * pix * (1 + 1e-5)
     else:
         inside, outside = alpha <= c * (1 - 1e-6), alpha >= c * (1 + 1e-6)
+    if soft and k.ndim == 2 and axis_pix is not None:
+        # ON the k_x axis (k_y = 0) "a pixel" is unambiguously the x pixel, on the k_y axis the y pixel: the bound must hold there with the
+        # axis's OWN pixel size (on an anisotropic grid this is sharper than the coarse-pixel bound above for the finely sampled axis)
+        for name, line_k, line_a, p in (("kx", k[:, 0], alpha[:, 0], axis_pix[0]), ("ky", k[0, :], alpha[0, :], axis_pix[1])):
+            ins, outs = line_a <= c - 0.5 * p * (1 + 1e-5), line_a >= c + 0.5 * p * (1 + 1e-5)
+            if ins.any() and not np.all(line_k[ins] == 1):
+                out.append(("aperture/soft-inside/on-axis", "cutoff %r mrad: transmission %r at alpha=%r mrad on the %s axis, more than half a %s pixel (%.4g mrad) inside" % (
+                    c_mrad, float(line_k[ins].min()), float(line_a[ins][np.argmin(line_k[ins])] * 1e3), name, name, p * 1e3)))
+            if outs.any() and not np.all(line_k[outs] == 0):
+                out.append(("aperture/soft-outside/on-axis", "cutoff %r mrad: transmission %r at alpha=%r mrad on the %s axis, more than half a %s pixel (%.4g mrad) outside" % (
+                    c_mrad, float(line_k[outs].max()), float(line_a[outs][np.argmax(line_k[outs])] * 1e3), name, name, p * 1e3)))
     if inside.any() and not np.all(k[inside] == 1):
         out.append(("aperture/%s-inside" % ("soft" if soft else "hard"), "cutoff %r mrad: transmission %r at alpha=%r mrad inside the aperture" % (
             c_mrad, float(k[inside].min()), float(alpha[inside][np.argmin(k[inside])] * 1e3))))
@@ -147,7 +160,7 @@ def run_case(case):
         k = np.asarray(ap._evaluate_kernel())
         for idx, vals, m in members(ap, k):
             cv = vals.get("semiangle_cutoff", c)
-            for key, msg in aperture_bounds(m, alpha, pix, float(cv), case["soft"]):
+            for key, msg in aperture_bounds(m, alpha, pix, float(cv), case["soft"], axis_pix=alpha_grid.axis_pix):
                 bad(key, msg)
         nt = CUTOFFS[case["cutoff"]] != "inf"
         obs = "%.4g" % float(k.mean())
